@@ -9,7 +9,10 @@ ACK_ARGS = [[], ['r'], ['r', 2], [b'bin'], [{'k': [b'x', 1]}, None]]
 
 
 class Model:
-    def __init__(self, is_async, cap, T=2, coro_cb=False, seed=0):
+    def __init__(self, is_async, cap, T=2, coro_cb=False, seed=0,
+                 always_connect=False, refusals=True):
+        self.always_connect = always_connect
+        self.refusals = refusals
         self.is_async = is_async
         self.cap = cap
         self.T = T
@@ -17,8 +20,29 @@ class Model:
         self.ack_args = common.rotate(ACK_ARGS, seed)
 
     def initial(self):
-        w = ServerWorld(is_async=self.is_async, namespaces=list(NSS))
+        w = ServerWorld(is_async=self.is_async, namespaces=list(NSS),
+                        always_connect=self.always_connect)
         w.violations = []
+        w.refuse = None
+        model = self
+        for ns in NSS:
+            def mk(ns):
+                if self.is_async:
+                    async def c(sid, environ):
+                        if w.refuse is not None:
+                            await w.sio.emit(
+                                'q', {'n': w.refuse}, to=sid, namespace=ns,
+                                callback=model._callback(w, w.refuse))
+                            return False
+                else:
+                    def c(sid, environ):
+                        if w.refuse is not None:
+                            w.sio.emit(
+                                'q', {'n': w.refuse}, to=sid, namespace=ns,
+                                callback=model._callback(w, w.refuse))
+                            return False
+                w.sio.on('connect', c, namespace=ns)
+            mk(ns)
         for _ in range(self.T):
             w.new_transport()
         w.slot = list(range(self.T))
@@ -27,6 +51,7 @@ class Model:
         w.out = {}            # (slot, ns) -> {id: callback number}
         w.used = {}           # (slot, ns) -> set of ids already acknowledged
         w.ncb = 0
+        w.refused = 0
         w.fired = {}          # callback number -> list of arg tuples
         w.drain_all()
         return w
@@ -60,6 +85,8 @@ class Model:
             for ns in NSS:
                 if (s, ns) not in w.conn:
                     ops.append(('connect', s, ns))
+                    if s == 0 and w.refused < 1 and self.refusals:
+                        ops.append(('connect-emit-refuse', s, ns))
                 else:
                     ops.append(('cdisc', s, ns))
                     ops.append(('sdisc', s, ns))
@@ -99,6 +126,26 @@ class Model:
                 self._bad(w, 'connect', f'{op} not accepted')
             else:
                 w.conn[(s, ns)] = sid
+        elif kind == 'connect-emit-refuse':
+            # the connect handler emits to the new sid with a callback and
+            # then refuses the connection: that callback must never fire
+            _, s, ns = op
+            w.ncb += 1
+            w.refused += 1
+            w.refuse = w.ncb
+            w.drain_all()
+            w.recv_packet(w.slot[s], 0, ns)
+            w.refuse = None
+            frames = [f for f in w.drain(w.slot[s]) if f[0] == 'pkt']
+            ids = [f[3] for f in frames if f[1] == 2 and f[3] is not None]
+            if w.sid_of(w.slot[s], ns) is not None and \
+                    w.sio.manager.is_connected(w.sid_of(w.slot[s], ns), ns):
+                self._bad(w, 'refused-connected', f'{op}: refused client is '
+                          'connected')
+            for id in ids:
+                # remembered as a "used" id of this transport/namespace so
+                # that later ACK operations try it
+                w.used.setdefault((s, ns), set()).add(id)
         elif kind == 'cdisc':
             _, s, ns = op
             w.recv_packet(w.slot[s], 1, ns)
@@ -192,7 +239,10 @@ class Model:
                            tuple(sorted(repr(k) for k in real))))
         live = set(w.conn.values())
         stale = sorted(w.namer.norm(k) for k in m.callbacks if k not in live)
-        return (tuple(st), tuple(stale))
+        return (tuple(st), tuple(stale), w.refused,
+                tuple(sorted((k, tuple(sorted(v)))
+                             for k, v in w.used.items()
+                             if k not in w.conn and v)))
 
     def probe(self, w):
         # ledger vs manager: outstanding ids per live sid
@@ -223,11 +273,16 @@ def run(tier, seed, result):
     closure = True
     cap = 3 if tier == 'quick' else 4
     depth = 40
-    for is_async, coro in ((False, False), (True, False), (True, True)):
-        params = dict(is_async=is_async, cap=cap, coro_cb=coro, seed=seed)
+    for is_async, coro, ac in ((False, False, False), (True, False, False),
+                               (True, True, False), (False, False, True),
+                               (True, False, True)):
+        params = dict(is_async=is_async, cap=cap if not ac else 1,
+                      coro_cb=coro, seed=seed, always_connect=ac,
+                      refusals=ac or not is_async)
         st = e1.explore('c06', params, result, max_depth=depth)
         closure = closure and st['closure']
-        notes.append(f'async={is_async} coro_cb={coro}: {st}')
+        notes.append(f'async={is_async} coro_cb={coro} always_connect={ac}: '
+                     f'{st}')
     notes.append(c06_call.run(tier, seed, result))
     from . import c06_sched
     notes.append(c06_sched.run(tier, seed, result))
